@@ -12,3 +12,5 @@ rc=$?
 git -C /repo checkout -- . ; git -C /repo clean -fdq -- . >/dev/null 2>&1
 echo "exit=$rc"
 echo "$out" | grep -E "^runs=|VIOLATION|KNOWN-FINDING|HARNESS-ERROR" | cut -c1-400 | head -${LINES_MAX:-6}
+# rebuild clean: leave the engine binary of the unchanged tree behind, never the patched one
+(cd /verif && VERIF_ROOT=/tmp/vr-seeded VERIF_RUNS=1 ./check "$id" quick >/dev/null 2>&1 || true)
